@@ -161,6 +161,16 @@ Section Split.
 
 End Split.
 
+
+(* (index, value) pairs a side (w = true: L, false: R) owes from source index i
+   on, in source order; used by the trace monitor (Case_C18) and by IterInv *)
+Fixpoint expected_from (w : bool) (xs : list nat) (cs : list bool) (i : nat) : list (nat * nat) :=
+  match xs, cs with
+  | x :: xr, c :: cr => if Bool.eqb c w then (i, x) :: expected_from w xr cr (S i)
+                        else expected_from w xr cr (S i)
+  | _, _ => []
+  end.
+
 (* exhaust (itertools.py:24-37): deque(iterable, maxlen=0) pulls until the
    source is exhausted and keeps nothing. Returns the pull log and #stops. *)
 Fixpoint drain (rest : list nat) (pos : nat) (log : list nat) : list nat * nat :=
